@@ -75,7 +75,8 @@ theorem rem_round {c : Cfg} {sc : Script} {R K now : Nat} {x x' : Host} (hx : MI
     · rw [hn]; simp only []; omega
 
 /-- a step of the target itself never increases what it may still cost -/
-theorem rem_hostStep {c : Cfg} {sc : Script} {now wake : Nat} {h : Host} (R K : Nat) (hi : HostInv c now wake h)
+theorem rem_hostStep {c : Cfg} (hka : c.killAfter = false) {sc : Script} {now wake : Nat} {h : Host} (R K : Nat)
+    (hi : HostInv c now wake h)
     (hw : wake ≤ now + WDOG_POLL) (lo : Local) (hpre : LocalPre h lo) (hd : DHost now h) (hm : MInv sc K h)
     (hlife : ∀ l, sc.life = some l → l ≤ K) :
     rem c R K now (hostStep c sc now h lo) ≤ rem c R K now h := by
@@ -120,7 +121,7 @@ theorem rem_hostStep {c : Cfg} {sc : Script} {now wake : Nat} {h : Host} (R K : 
       simp only [Host.wakeCore]
       split
       · split
-        · exact rem_timeout hm hp hcl rfl rfl
+        · rw [Host.giveUp_off hka]; exact rem_timeout hm hp hcl rfl rfl
         · exact rem_round hm hp hcl (pollRound_frame _ _).2.2.1 (pollRound_td _ _).2.1
             (by rcases pollRound_ph now { h with intr := false } with hq | hq
                 · exact Or.inl hq.1
@@ -137,7 +138,7 @@ theorem rem_hostStep {c : Cfg} {sc : Script} {now wake : Nat} {h : Host} (R K : 
     have hself : rem c R K now ((h.wakeCore c now).selfTimeout c now) ≤ rem c R K now (h.wakeCore c now) := by
       simp only [Host.selfTimeout]; split
       · rename_i hc
-        exact rem_timeout hcm hc.2.1 (hci.connLe hc.2.1) rfl rfl
+        rw [Host.giveUp_off hka]; exact rem_timeout hcm hc.2.1 (hci.connLe hc.2.1) rfl rfl
       · exact Nat.le_refl _
     simp only [hostStep]
     exact Nat.le_trans hself hcore
@@ -168,7 +169,7 @@ theorem step_now {s s' : St} {l : Label} (h : step s l = some s') (hl : l ≠ .t
   | tick => exact absurd rfl hl
 
 /-- no operation of any thread increases the potential -/
-theorem potential_dstep {K : Nat} {s s' : St} {l : Label} (hi : TInv s) (hd : DInv s)
+theorem potential_dstep {K : Nat} {s s' : St} {l : Label} (hka : s.cfg.killAfter = false) (hi : TInv s) (hd : DInv s)
     (hm : ∀ j, j < s.hs.length → MInv (s.script j) K (s.host j))
     (hlife : ∀ j, j < s.hs.length → ∀ l, (s.script j).life = some l → l ≤ K)
     (h : step s l = some s') (hl : l ≠ .tick) :
@@ -178,11 +179,12 @@ theorem potential_dstep {K : Nat} {s s' : St} {l : Label} (hi : TInv s) (hd : DI
   apply sum_range_le
   intro j hj
   rw [host_local' h hj]
-  exact rem_hostStep _ _ (hi.hosts j hj) hi.wakeNow _ (local_pre hi h hj) (hd.host j hj) (hm j hj) (hlife j hj)
+  exact rem_hostStep hka _ _ (hi.hosts j hj) hi.wakeNow _ (local_pre hi h hj) (hd.host j hj) (hm j hj) (hlife j hj)
 
 /-- when the clock can advance and dsh() has not returned, the run is waiting for some target: one blocked in
     connect or in xpoll, not interrupted; or one whose teardown waits for a command that is not gone yet -/
-theorem waiting_for {s : St} (hi : TInv s) (hq : quiescent s = true) (hf : 0 < s.fan.f) (hnf : ¬ Final s) :
+theorem waiting_for {s : St} (hi : TInv s) (hq : quiescent s = true) (hf : 0 < s.fan.f) (hnf : ¬ Final s)
+    (hhold : ∀ j, j < s.hs.length → (s.host j).hold ≤ s.now) :
     ∃ j, j < s.hs.length ∧
       (((s.host j).intr = false ∧ ((s.host j).ph = .connecting ∨ (s.host j).ph = .reading)) ∨
        ((s.host j).ph = .finished ∧ (s.host j).gone s.now = false)) := by
@@ -229,7 +231,11 @@ theorem waiting_for {s : St} (hi : TInv s) (hq : quiescent s = true) (hf : 0 < s
         | false => rfl
         | true => exact absurd (Or.inl hph) (fun x => hint hh x)
       | destroyBegin =>
-        have hnfin : (s.host i).ph ≠ .finished := by simpa [fanGuard] using hg
+        have hnfin : (s.host i).ph ≠ .finished := by
+          intro hfin'
+          have hg' := hg
+          simp only [fanGuard, hfin', beq_self_eq_true, Bool.true_and, decide_eq_false_iff_not] at hg'
+          exact hg' (hhold i hih)
         have hph : (s.host i).ph = .reading := by
           have : (s.host i).ph = .reading ∨ (s.host i).ph = .finished := by simpa [phOK, FanG.WAct.pre] using hsy
           rcases this with h1 | h1
@@ -248,14 +254,14 @@ theorem waiting_for {s : St} (hi : TInv s) (hq : quiescent s = true) (hf : 0 < s
 
 /-- a second that passes is paid for by a target the run is waiting for -/
 theorem potential_tick {K : Nat} {s s' : St} (hi : TInv s) (h : step s .tick = some s') (hf : 0 < s.fan.f)
-    (hnf : ¬ Final s) (hct : 0 < s.cfg.ct)
+    (hnf : ¬ Final s) (hct : 0 < s.cfg.ct) (hhold : ∀ j, j < s.hs.length → (s.host j).hold ≤ s.now)
     (hread : ∀ k, k < s.hs.length → (s.host k).ph = .reading → (s.host k).intr = false →
       s.now < (s.host k).conn + readB s.cfg (s.script k))
     (hfin : ∀ k, k < s.hs.length → (s.host k).ph = .finished → ∃ d, (s.host k).death = some d) :
     potential K s' + 1 ≤ potential K s := by
   obtain ⟨hq, he⟩ := step_tick_facts h
   have hlt : s.now < s.wake := tick_lt_wake h
-  obtain ⟨k, hk, hwf⟩ := waiting_for hi hq hf hnf
+  obtain ⟨k, hk, hwf⟩ := waiting_for hi hq hf hnf hhold
   have hho := hi.hosts k hk
   have : potential K s' < potential K s := by
     rw [he]; simp only [potential]
@@ -316,7 +322,7 @@ theorem fan_final_stable {f f' : FanG.St} (hfin : FanG.Final f) {l : FanG.Label}
     clock never exceeds the sum over the targets of (connect_timeout + WDOG_POLL) + (command_timeout + WDOG_POLL,
     resp. the scripted end of its streams) + K -/
 theorem time_bounded {v f c scripts} {K : Nat} {ls : List Label} {s : St} (he : Exec (init v f c scripts) ls s)
-    (hf : 0 < f) (hct : 0 < c.ct)
+    (hka : c.killAfter = false) (hf : 0 < f) (hct : 0 < c.ct)
     (hcov : 0 < c.ut ∨ ∀ j, j < scripts.length → NoHang c (scripts.getD j defaultScript))
     (htd : ∀ j, j < scripts.length → Td c K (scripts.getD j defaultScript)) :
     s.cfg = c ∧ s.fan.f = f ∧
@@ -368,7 +374,8 @@ theorem time_bounded {v f c scripts} {K : Nat} {ls : List Label} {s : St} (he : 
             · rw [hc]; simp only [St.script, hscr]; exact hall k hk'
           have := reading_waits hq hk (hgi k hk') hnh hph
           simp only [readB, hu, if_false]; exact this
-      have := potential_tick (K := K) hti hs (by rw [hff]; exact hf) hnf1 (by rw [hc]; exact hct) hread
+      have := potential_tick (K := K) hti hs (by rw [hff]; exact hf) hnf1 (by rw [hc]; exact hct)
+        (fun j hj => by rw [hold_exec he' hka (by rw [← hlen]; exact hj)]; exact Nat.zero_le _) hread
         (fun k hk hph => (hmi' k hk).fin hph)
       have hn : s2.now = s1.now + 1 := by rw [he2]
       omega
@@ -379,7 +386,7 @@ theorem time_bounded {v f c scripts} {K : Nat} {ls : List Label} {s : St} (he : 
         rcases htd j hj' with ⟨l', hl', hle⟩ | ⟨hn, _⟩
         · rw [hsc, hl'] at hl; cases hl; exact hle
         · rw [hsc, hn] at hl; cases hl
-      have := potential_dstep hti hdi hmi' hlife hs hl
+      have := potential_dstep (by rw [hc]; exact hka) hti hdi hmi' hlife hs hl
       rw [step_now hs hl]; omega
 
 end PdshVerif.Dsh.Timed
